@@ -34,7 +34,7 @@ func main() {
 	r.Fold(8, 3)
 	r.Assume("reference conversions only where MySQL's strict-mode result is certain; text->number for non-canonical text, DECIMAL->VARCHAR and VARCHAR->DECIMAL are judged on: statement failed without effect, or row count + all other columns preserved + new schema reported")
 	r.Assume("string data is lower-case ASCII without trailing spaces (collations play no role); DESCRIBE's Key column is compared for PRI only")
-	n := r.N(300, 6000)
+	n := r.N(300, 4000)
 	if c := os.Getenv("VERIF_CASE"); c != "" {
 		var k int
 		fmt.Sscan(c, &k)
@@ -43,7 +43,7 @@ func main() {
 	}
 	r.Parallel("hist", n, func(i int) { runCase(r, i) })
 	pinned(r)
-	for _, f := range []string{"alter.ok", "alter.fail", "conv.ok-changed", "conv.fail", "conv.weak", "alter.reorder", "fail.duplicate-key", "index-probes", "alter.two-clause-fail"} {
+	for _, f := range []string{"alter.ok", "alter.fail", "conv.ok-changed", "conv.fail", "conv.weak", "fail.duplicate-key", "index-probes", "alter.two-clause-fail"} {
 		r.Floor(r.Counter(f) > 0, "never observed: "+f)
 	}
 	r.Finish()
@@ -241,18 +241,22 @@ func indexProbe(s *core.Sess, t *mtable, sn *snapshot) (string, []string) {
 		ci := t.colIndex(cname)
 		// the bound is the smallest value of the column's own type (out-of-domain literals in index
 		// filters are a known defect class of another property, F11)
-		var pred string
+		// (strictly above the minimum: a closed range starting at the type's minimum returns NULL keys
+		// too, an index-range defect that belongs to C03)
+		var pred, minText string
 		switch ty := t.cols[ci].t; ty.kind {
 		case "str":
 			pred = g.Q(cname) + " >= ''"
 		case "int":
 			lo, _ := ty.intRange()
-			pred = g.Q(cname) + " >= " + lo.String()
+			minText = lo.String()
+			pred = g.Q(cname) + " > " + minText
 		default:
-			pred = g.Q(cname) + " >= -" + strings.Repeat("9", ty.p-ty.s)
+			minText = "-" + strings.Repeat("9", ty.p-ty.s)
 			if ty.s > 0 {
-				pred += "." + strings.Repeat("9", ty.s)
+				minText += "." + strings.Repeat("9", ty.s)
 			}
+			pred = g.Q(cname) + " > " + minText
 		}
 		q := "SELECT * FROM " + g.Q(t.name) + " WHERE " + pred
 		res := s.Exec(q)
@@ -262,7 +266,7 @@ func indexProbe(s *core.Sess, t *mtable, sn *snapshot) (string, []string) {
 		got := core.SortedRows(res.Rows)
 		var want []string
 		for _, r := range sn.rows {
-			if r[ci] != "NULL" {
+			if r[ci] != "NULL" && r[ci] != minText {
 				want = append(want, strings.Join(r, "|"))
 			}
 		}
@@ -523,6 +527,14 @@ func runCase(r *core.Run, i int) {
 			name = next.name
 		}
 		sn := observe(s, name)
+		if name != model.name {
+			// the old name must be gone
+			if chk := s.Exec("SELECT 1 FROM " + g.Q(model.name)); !chk.Failed() {
+				w.What = "after RENAME the table is still reachable under its old name"
+				r.Violation("rename-table-old-name-still-resolves", w)
+				return
+			}
+		}
 		same := diffKind(sn, model, "") == "" // unchanged w.r.t. the state before the statement
 		report := func(sig, what string, exp *mtable) {
 			w.What = what
@@ -537,7 +549,7 @@ func runCase(r *core.Run, i int) {
 			// a panic is a violation of the property for the statement at hand; known panic classes are
 			// matched by their signature, and the history goes on only if nothing changed
 			w.What = "panic: " + res.Panic.Value
-			sig := res.Panic.Sig() + "|" + sigClass
+			sig := strings.ReplaceAll(res.Panic.Sig(), " ", "_") + "|" + sigClass // no blanks: the findings file is token based
 			pw := *w
 			pw.Steps = append([]step{}, w.Steps...)
 			pw.Expected = modelText(next, true)
@@ -568,6 +580,15 @@ func runCase(r *core.Run, i int) {
 				pw := *w
 				pw.Steps = append([]step{}, w.Steps...)
 				r.Violation("drop-column-before-unique-index-column:internal-error-field-index", &pw)
+				continue
+			}
+			if al != nil && multiColUniqueConversionError(al, res) {
+				// known finding: ADD UNIQUE INDEX over >= 2 columns validates the existing rows with the
+				// types of the wrong columns and fails with a conversion error (no effect)
+				w.What = "valid ADD UNIQUE INDEX (>= 2 columns) rejected with a conversion error that belongs to another column's type: " + core.Clip(res.Err.Error(), 120)
+				pw := *w
+				pw.Steps = append([]step{}, w.Steps...)
+				r.Violation("add-multicolumn-unique-index-spurious-conversion-error", &pw)
 				continue
 			}
 			report("valid-statement-rejected:"+sigClass+":"+res.ErrClass(), "valid statement rejected: "+core.Clip(res.Err.Error(), 160), next)
@@ -689,6 +710,16 @@ func dropBeforeUnique(t *mtable, al *alter) bool {
 	return false
 }
 
+// multiColUniqueConversionError is the matcher of known finding
+// add-multicolumn-unique-index-spurious-conversion-error.
+func multiColUniqueConversionError(al *alter, res *core.Result) bool {
+	if len(al.clauses) != 1 || al.clauses[0].kind != "addidx" || !al.clauses[0].unique || len(al.clauses[0].cols) < 2 || res.Err == nil {
+		return false
+	}
+	m := res.Err.Error()
+	return strings.Contains(m, "is too large for column") || strings.Contains(m, "Truncated incorrect") || strings.Contains(m, "out of range") || strings.Contains(m, "Out of range")
+}
+
 // pkReordered: STATISTICS differs from the model only in the order of the PRIMARY key's columns.
 func pkReordered(sn *snapshot, t *mtable) bool {
 	if len(t.pk) < 2 {
@@ -733,4 +764,63 @@ func adoptPK(sn *snapshot, t *mtable) {
 	}
 }
 
-func pinned(r *core.Run) {}
+type pin struct {
+	sig, what string
+	setup     []string
+	probe     string
+	bad       func(res *core.Result) bool
+}
+
+// pinned replays the minimal witness of every known finding on every run.
+func pinned(r *core.Run) {
+	rowsAre := func(want ...string) func(*core.Result) bool {
+		return func(res *core.Result) bool { return res.Failed() || !core.SameStrings(core.SortedRows(res.Rows), want) }
+	}
+	failed := func(res *core.Result) bool { return res.Failed() }
+	const reshape = "alter-reshape-leaves-stale-key-metadata"
+	const move = "reposition-leaves-stale-column-positions"
+	pins := []pin{
+		{"panic:sql/fulltext.GetKeyColumns:runtime_error:_index_out_of_range_[-]|drop+pk", "DROP COLUMN of a PRIMARY KEY member panics",
+			[]string{"CREATE TABLE k1 (id INT NOT NULL, c INT NOT NULL, PRIMARY KEY (id, c))"}, "ALTER TABLE k1 DROP COLUMN c", failed},
+		{"add-multicolumn-unique-index-spurious-conversion-error", "ADD UNIQUE INDEX (c1, c4) fails: string '-999.55' is too large for column 'varchar(2)'",
+			[]string{"CREATE TABLE k2 (id INT NOT NULL, c1 VARCHAR(2), c2 INT, c4 DECIMAL(6,2), PRIMARY KEY (id))", "INSERT INTO k2 VALUES (8, 'q', 1, -999.55)"},
+			"ALTER TABLE k2 ADD UNIQUE INDEX ix1 (c1, c4)", failed},
+		{"unique-key-not-revalidated-after-lossy-conversion", "MODIFY c TINYINT on UNIQUE DECIMAL values 1.0055, 1.0125 is accepted: two rows with c = 1",
+			[]string{"CREATE TABLE k3 (id INT NOT NULL, c DECIMAL(10,4), UNIQUE KEY u (c))", "INSERT INTO k3 VALUES (1, 1.0055), (2, 1.0125)"},
+			"ALTER TABLE k3 MODIFY c TINYINT", func(res *core.Result) bool { return !res.Failed() }},
+		{reshape, "(a) CHANGE c5 c10 INT NOT NULL on an indexed column drops the index",
+			[]string{"CREATE TABLE k4a (id INT NOT NULL, c5 INT, PRIMARY KEY (id), KEY ix4 (c5))", "INSERT INTO k4a VALUES (1, 1)", "ALTER TABLE k4a CHANGE c5 c10 INT NOT NULL"},
+			"SELECT INDEX_NAME FROM information_schema.STATISTICS WHERE TABLE_SCHEMA = 'd' AND TABLE_NAME = 'k4a'", rowsAre("'PRIMARY'", "'ix4'")},
+		{reshape, "(b) DROP COLUMN of a member of a UNIQUE index panics",
+			[]string{"CREATE TABLE k4b (id INT NOT NULL, a INT, UNIQUE KEY u (id, a))"}, "ALTER TABLE k4b DROP COLUMN a", failed},
+		{reshape, "(c) DROP COLUMN in front of a UNIQUE-indexed column: unable to find field with index",
+			[]string{"CREATE TABLE k4c (id INT NOT NULL, c1 DECIMAL(4,1) DEFAULT 7, c2 INT, c3 INT NOT NULL, PRIMARY KEY (id, c3), KEY ix1 (c2))", "INSERT INTO k4c VALUES (1, 1, 1, 1), (2, 2, 2, 2)", "ALTER TABLE k4c ADD UNIQUE INDEX ix2 (c3)"},
+			"ALTER TABLE k4c DROP COLUMN c1", failed},
+		{reshape, "(d) RENAME COLUMN of a composite-PK member re-orders the key",
+			[]string{"CREATE TABLE k4d (id INT NOT NULL, c1 INT, c2 INT NOT NULL, PRIMARY KEY (id, c2))", "ALTER TABLE k4d RENAME COLUMN c2 TO c4"},
+			"SELECT SEQ_IN_INDEX, COLUMN_NAME FROM information_schema.STATISTICS WHERE TABLE_SCHEMA = 'd' AND TABLE_NAME = 'k4d'", rowsAre("1|'id'", "2|'c4'")},
+		{reshape, "(e) MODIFY of a member of a multi-column UNIQUE index: a later UPDATE panics in sortSecondaryIndexes",
+			[]string{"CREATE TABLE k4e (id INT NOT NULL, c1 VARCHAR(8) NOT NULL, c2 DECIMAL(10,4), PRIMARY KEY (id, c1), UNIQUE KEY ix1 (c1, c2))", "INSERT INTO k4e VALUES (16, 'abc', 9.0045), (21, 'zz', -1.0025)", "ALTER TABLE k4e MODIFY c1 VARCHAR(16) NOT NULL"},
+			"UPDATE k4e SET c1 = 'zz' WHERE id = 16", failed},
+		{move, "(a) MODIFY c2 VARCHAR(8) NOT NULL AFTER id on an indexed SMALLINT column: index range read misses rows",
+			[]string{"CREATE TABLE k5a (id INT NOT NULL, c1 INT NOT NULL, c2 SMALLINT NOT NULL, PRIMARY KEY (id), KEY ix1 (c2))", "INSERT INTO k5a VALUES (1, -300, 128), (2, 100, -128), (22, -129, -128)", "ALTER TABLE k5a MODIFY c2 VARCHAR(8) NOT NULL AFTER id"},
+			"SELECT id FROM k5a WHERE c2 >= ''", rowsAre("1", "2", "22")},
+		{move, "(b) ADD COLUMN c0 VARCHAR(8) FIRST, then ADD UNIQUE INDEX (c2, c3) fails with a conversion error of c0's type",
+			[]string{"CREATE TABLE k5b (id INT NOT NULL, c1 TINYINT UNSIGNED NOT NULL, c2 VARCHAR(16), c3 BIGINT, PRIMARY KEY (id))", "INSERT INTO k5b VALUES (8, 128, 'longerword', 100)", "ALTER TABLE k5b ADD COLUMN c0 VARCHAR(8) FIRST"},
+			"ALTER TABLE k5b ADD UNIQUE INDEX ix1 (c2, c3)", failed},
+		{"secondary-index-not-maintained-after-table-rename", "after ALTER TABLE ... RENAME TO, INSERT of NULL into an indexed column is returned by WHERE c5 > -5 through the index",
+			[]string{"CREATE TABLE k6 (id INT NOT NULL, c5 INT NULL, KEY ix1 (c5))", "INSERT INTO k6 VALUES (1, 100)", "ALTER TABLE k6 RENAME TO k6b", "INSERT INTO k6b VALUES (26, NULL)"},
+			"SELECT id FROM k6b WHERE c5 > -5", rowsAre("1")},
+	}
+	for _, p := range pins {
+		e := core.NewEng("d")
+		s := e.NewSess()
+		for _, q := range p.setup {
+			s.Exec(q)
+		}
+		res := s.Exec(p.probe)
+		r.Eval(1)
+		r.Pinned(p.sig, p.what, p.bad(res), map[string]any{"setup": p.setup, "probe": p.probe, "outcome": g.Outcome(res), "rows": core.SortedRows(res.Rows)})
+		e.Close()
+	}
+}
